@@ -252,7 +252,8 @@ func (res *Response) Less(idx1, idx2 int) bool {
 			}
 
 			return valueA > valueB
-		case JSONCol, StringCol:
+		case JSONCol, StringCol, StringLargeCol, StringListCol, Int64ListCol:
+			// lists are compared by their printed form, so that the order is defined and later sort keys still count
 			index := field.Index
 			if field.Group {
 				index = 0
@@ -267,12 +268,6 @@ func (res *Response) Less(idx1, idx2 int) bool {
 			}
 
 			return str1 > str2
-		case StringListCol:
-			// not implemented
-			return field.Direction == Asc
-		case Int64ListCol:
-			// not implemented
-			return field.Direction == Asc
 		default:
 			panic(fmt.Sprintf("sorting not implemented for type %s", sortType))
 		}
